@@ -109,6 +109,13 @@ func runPipe(c *hx.Ctx, wire []byte, cfg pipeCfg, logLevel slog.Level, display b
 // fineGrained switches on statement-granularity yields in the concurrent glue
 // packages for one run in five.
 func fineGrained(c *hx.Ctx, s *rt.Sim, o *hx.Outcome) {
+	if c.T.D(6) == 0 {
+		// stalled goroutines: one run in six
+		s.Freeze = true
+		if o != nil {
+			o.Fault("goroutine-stalls-in-simulated-time")
+		}
+	}
 	if c.T.D(5) == 0 {
 		s.EnableStmt(rt.PkgFileHandler, rt.PkgAppCore, rt.PkgApps, rt.PkgProxy, rt.PkgPushback)
 		if o != nil {
